@@ -541,8 +541,19 @@ func (obj *Package) Unexport(name string) {
 func (obj *Package) Undefine(name string) {
 	name = strings.ToLower(name)
 	obj.mu.Lock()
-	if obj.funcs != nil {
+	if fi := obj.funcs[name]; fi != nil {
 		delete(obj.funcs, name)
+		if fi.Pkg == obj {
+			// The packages that use this one saw the function, they must
+			// not keep seeing it.
+			for _, u := range obj.Users {
+				u.mu.Lock()
+				if u.funcs[name] == fi {
+					delete(u.funcs, name)
+				}
+				u.mu.Unlock()
+			}
+		}
 	}
 	obj.mu.Unlock()
 	pname := fmt.Sprintf("%s:%s", obj.Name, name)
